@@ -45,7 +45,7 @@ TRUSTED = [
     "Go map iteration order and math/rand as arbitrary orders/permutations; the Go harness (harness/cmd/rutrace, internal/node, internal/trace) and the read-only hooks in /repo (build tag verif)",
 ]
 ASSUMPTIONS = [
-    "operations on one node are sequential (interleavings are C16's subject)",
+    "operations on one node are sequential, except the two interleavings the model contains (the node's own tick, or a submission, running to completion inside a sync round: OpX.syncTick / OpX.syncSubmit, driven on the real code by the rutrace operations synctick / syncsubmit); every other interleaving is C16's subject",
     "transactions reaching the core satisfy Tx.WF (the repaired decoders reject null entries and empty outputs; checked by C14)",
     "timestamps are non-zero UnixNano values within int64",
 ]
